@@ -91,7 +91,9 @@ def _strip_docstrings(tree):
 
 
 class Program:
-    def __init__(self, root=DEFAULT_ROOT, overrides=None):
+    def __init__(self, root=DEFAULT_ROOT, overrides=None, as_written=False):
+        self.as_written = as_written
+        self._raw = None
         self.root = pathlib.Path(root)
         self.mods = {}
         self.functions = {}
@@ -128,11 +130,23 @@ class Program:
         # static metaprogramming (name tuples, dict(zip()), ** option dicts, setattr loops, record-passing helpers) is
         # evaluated away once, for all engines (sa/desugar.py); VERIF_NODESUGAR=1 analyses the trees as written
         from . import desugar
-        self.desugar_stats = desugar.desugar({k: m.tree for k, m in self.mods.items()})
-        self.desugarer = self.desugar_stats.pop("_desugarer", None)
+        if as_written:
+            self.desugar_stats, self.desugarer = {}, None
+        else:
+            self.desugar_stats = desugar.desugar({k: m.tree for k, m in self.mods.items()})
+            self.desugarer = self.desugar_stats.pop("_desugarer", None)
         for m in self.mods.values():
             self._index(m)
         self._callgraph = None
+
+    @property
+    def raw(self):
+        """the same sources indexed AS WRITTEN (no helper written out at its calls, no table folded): for rules about the calls themselves"""
+        if self.as_written:
+            return self
+        if self._raw is None:
+            self._raw = Program(self.root, overrides={k: m.src for k, m in self.mods.items()}, as_written=True)
+        return self._raw
 
     # ------------------------------------------------------------------ indexing
     def _index(self, m):
